@@ -19,6 +19,7 @@ NC = 6  # contract slots
 NL = 4  # term-list slots
 BASE_NAMES = ["x", "y", "z", "u", "v", "w", "t1"]
 WIDE_NAMES = BASE_NAMES + ["a", "b", "c", "p", "in_1", "out_22"]
+SYM_NAMES = ["E", "I", "pi", "S", "N", "lambda", "beta"]  # legal variable names that mean something to sympy
 NAMES = list(BASE_NAMES)
 EXTRA_NAMES = ["q", "r_2", "long_name"]
 STYLE: Dict[str, Any] = {"name": "plain"}
@@ -29,13 +30,15 @@ def set_style(style: Optional[Dict]) -> None:
     global NAMES  # noqa: WPS420
     STYLE.clear()
     STYLE.update(style or {"name": "plain"})
-    NAMES = list(WIDE_NAMES if STYLE.get("name") == "wide" else BASE_NAMES)
+    NAMES = list(WIDE_NAMES if STYLE.get("name") == "wide" else (SYM_NAMES if STYLE.get("name") == "symnames" else BASE_NAMES))
 
 
 def draw_style(rs) -> Dict:
     r = rs.random()
-    if r < 0.55:
+    if r < 0.51:
         return {"name": "plain"}
+    if r < 0.55:
+        return {"name": "symnames"}
     if r < 0.7:
         return {"name": "wide", "max_terms": 9}
     if r < 0.8:
